@@ -437,7 +437,7 @@ def torrentOf {V : Type} (ofStr : Str → V) (ofInt : Int → V) (ih : Str) (f :
     | some n => if n ≠ 0 then dictSet kLength (ofInt n) info else info
     | none => info
   match adopted with
-  | some a =>                                                           -- torrent.metainfo['info'] = self._info
+  | some a =>                                          -- torrent.metainfo['info'] = copy.deepcopy(self._info)
     .ok { info := a, ownHash := none, trackers := trackers, webseeds := webseeds }
   | none =>                                                             -- torrent._infohash = self._infohash_as_base16()
     match infohashAsBase16 ih with
@@ -454,5 +454,40 @@ def torrentInfohash {V : Type} (hashOf : Info V → Option Str) (t : TorrentOut 
     match t.ownHash with
     | some h => .ok h
     | none => .error .metainfo
+
+/-! ## histories of `torrent()` calls whose results the caller keeps and edits
+    Since `eafeb16` the returned torrent gets a **deep copy** of `_info`; the other parts of a result
+    (`Torrent()`, its info dict, `Trackers(self.tr)`, `URLs(self.ws)`) always were fresh objects.  So a
+    result shares no mutable state with the magnet or with another result: an edit by the caller —
+    any function of the result, at any depth — changes that one result and nothing else.  The state
+    keeps every result handed out so far as the caller sees it now. -/
+
+inductive TOp (V : Type) where
+  | torrent                                                  -- `r = m.torrent()`, kept by the caller
+  | edit (i : Nat) (g : TorrentOut V → TorrentOut V)         -- the caller changes result `i` in place
+  | setFields (f : Fields)                                   -- `m.dn = …`, `m.xl = …`, `m.tr = …`, `m.ws = …`
+
+structure TState (V : Type) where
+  fields : Fields
+  adopted : Option (Info V)
+  results : List (TorrentOut V)
+
+def stepT {V : Type} (ofStr : Str → V) (ofInt : Int → V) (ih : Str) (st : TState V) :
+    TOp V → Option (Except MErr (TorrentOut V)) × TState V
+  | .torrent =>
+    match torrentOf ofStr ofInt ih st.fields st.adopted with
+    | .ok t => (some (.ok t), { st with results := st.results ++ [t] })
+    | .error e => (some (.error e), st)
+  | .edit i g => (none, { st with results := st.results.modify i g })
+  | .setFields f => (none, { st with fields := f })
+
+/-- run a history; collects what every `torrent()` returned at the moment it returned -/
+def runT {V : Type} (ofStr : Str → V) (ofInt : Int → V) (ih : Str) (st : TState V) :
+    List (TOp V) → List (Except MErr (TorrentOut V)) × TState V
+  | [] => ([], st)
+  | op :: ops =>
+    let r := stepT ofStr ofInt ih st op
+    let rs := runT ofStr ofInt ih r.2 ops
+    ((match r.1 with | some o => o :: rs.1 | none => rs.1), rs.2)
 
 end Torf.Magnet
